@@ -27,11 +27,11 @@ Hypothesis L : arn_laws o vo.
 Theorem mgs_orth_b qs w w' hs hs' : mgs vo qs w hs = (w', hs') -> orthonormal o vo qs -> forall u, In u qs -> vdot vo u w' = o0 o.
 Proof. destruct L. eapply (mgs_orth o vo); eauto. Qed.
 
-Theorem arnoldi_step_b (A : V -> V) selfref tol (c : acol (T:=T) (V:=V)) :
+Theorem arnoldi_step_b (A : V -> V) selfref abs_clip tol (c : acol (T:=T) (V:=V)) :
   orthonormal o vo (aqs c) ->
-  let c' := arnoldi_step o vo A selfref tol c in
+  let c' := arnoldi_step o vo A selfref abs_clip tol c in
   forall w hs, mgs vo (aqs c) (A (alast c)) [] = (w, hs) ->
-  next_q o vo selfref tol w (vnrm o vo w) = vdivs vo w (vnrm o vo w) -> vnrm o vo w <> o0 o ->
+  next_q o vo selfref (step_thr o abs_clip tol (ahs c ++ [rev hs ++ [vnrm o vo w]])) w (vnrm o vo w) = vdivs vo w (vnrm o vo w) -> vnrm o vo w <> o0 o ->
   orthonormal o vo (aqs c') /\
   exists hcol, ahs c' = ahs c ++ [hcol] /\ length hcol = S (length (aqs c)) /\ aqs c' = aqs c ++ [alast c'] /\
     forall u, vdot vo u (A (alast c)) = lsum o (zipw (fun h q => omul o h (vdot vo u q)) hcol (aqs c')).
@@ -73,10 +73,10 @@ End Bundled.
 Section Bundled2.
 Context {T V : Type} (o : ops T) (vo : vops T V).
 Hypothesis L : arn_laws o vo.
-Theorem arnoldi_invariant_b (A : V -> V) (selfref zero_nan : bool) (tol : T) (r0 : V) (K : nat) : vnrm o vo r0 <> o0 o ->
+Theorem arnoldi_invariant_b (A : V -> V) (selfref zero_nan abs_clip : bool) (tol : T) (r0 : V) (K : nat) : vnrm o vo r0 <> o0 o ->
   start_den o zero_nan (vnrm o vo r0) = vnrm o vo r0 ->
-  (forall k, k < K -> unclipped o vo A selfref tol (acs o vo A selfref zero_nan tol r0 k)) ->
-  forall k, k <= K -> AInv o vo A k (acs o vo A selfref zero_nan tol r0 k).
+  (forall k, k < K -> unclipped o vo A selfref abs_clip tol (acs o vo A selfref zero_nan abs_clip tol r0 k)) ->
+  forall k, k <= K -> AInv o vo A k (acs o vo A selfref zero_nan abs_clip tol r0 k).
 Proof. intros. destruct L. eapply (arnoldi_invariant o vo); eauto. Qed.
 End Bundled2.
 
@@ -88,22 +88,22 @@ End Bundled2.
 Definition C13_full : Prop :=
   forall (T V : Type) (o : ops T) (vo : vops T V), arn_laws o vo ->
   forall (A As : V -> V), (forall u v, vdot vo u (A v) = vdot vo (As u) v) ->
-  forall (solve : list (list T) -> list T -> list T) (pad_buf selfref zero_nan : bool) (tol mfac : T) (m : nat) (b x0 : V),
+  forall (solve : list (list T) -> list T -> list T) (pad_buf selfref zero_nan abs_clip : bool) (tol mfac : T) (m : nat) (b x0 : V),
   vnrm o vo (vsub vo b (A x0)) <> o0 o ->
   start_den o zero_nan (vnrm o vo (vsub vo b (A x0))) = vnrm o vo (vsub vo b (A x0)) ->
-  (forall k, k < m -> unclipped o vo A selfref tol (acs o vo A selfref zero_nan tol (vsub vo b (A x0)) k)) ->
-  Forall (fun p : bool => p = false) (pad_of o vo A selfref zero_nan tol mfac m b x0) ->
-  (length (solve (Gm o vo A selfref zero_nan tol m b x0) (rhsm o vo A selfref zero_nan tol m b x0)) = m /\
-   forall i, i < m -> lsum o (zipw (omul o) (nth i (Gm o vo A selfref zero_nan tol m b x0) []) (solve (Gm o vo A selfref zero_nan tol m b x0) (rhsm o vo A selfref zero_nan tol m b x0)))
-                      = nth i (rhsm o vo A selfref zero_nan tol m b x0) (o0 o)) ->
+  (forall k, k < m -> unclipped o vo A selfref abs_clip tol (acs o vo A selfref zero_nan abs_clip tol (vsub vo b (A x0)) k)) ->
+  Forall (fun p : bool => p = false) (pad_of o vo A selfref zero_nan abs_clip tol mfac m b x0) ->
+  (length (solve (Gm o vo A selfref zero_nan abs_clip tol m b x0) (rhsm o vo A selfref zero_nan abs_clip tol m b x0)) = m /\
+   forall i, i < m -> lsum o (zipw (omul o) (nth i (Gm o vo A selfref zero_nan abs_clip tol m b x0) []) (solve (Gm o vo A selfref zero_nan abs_clip tol m b x0) (rhsm o vo A selfref zero_nan abs_clip tol m b x0)))
+                      = nth i (rhsm o vo A selfref zero_nan abs_clip tol m b x0) (o0 o)) ->
   forall n, m <= n ->
-  (forall k, k < m -> arnoldi_cond o selfref tol (Nat.min m n) ([acs o vo A selfref zero_nan tol (vsub vo b (A x0)) k], k) = true) ->
+  (forall k, k < m -> arnoldi_cond o selfref tol (Nat.min m n) ([acs o vo A selfref zero_nan abs_clip tol (vsub vo b (A x0)) k], k) = true) ->
   forall (Pos : T -> Prop), (forall v, Pos (vdot vo v v)) ->
-  exists x, gsol (gmres_fwd o vo A solve false pad_buf selfref zero_nan tol mfac m n [b] [x0]) = [x] /\ gsteps (gmres_fwd o vo A solve false pad_buf selfref zero_nan tol mfac m n [b] [x0]) = m /\
-    (forall y' : list T, Pos (osub o (vdot vo (vsub vo b (A (cand o vo A selfref zero_nan tol m b x0 y'))) (vsub vo b (A (cand o vo A selfref zero_nan tol m b x0 y'))))
+  exists x, gsol (gmres_fwd o vo A solve false pad_buf selfref zero_nan abs_clip tol mfac m n [b] [x0]) = [x] /\ gsteps (gmres_fwd o vo A solve false pad_buf selfref zero_nan abs_clip tol mfac m n [b] [x0]) = m /\
+    (forall y' : list T, Pos (osub o (vdot vo (vsub vo b (A (cand o vo A selfref zero_nan abs_clip tol m b x0 y'))) (vsub vo b (A (cand o vo A selfref zero_nan abs_clip tol m b x0 y'))))
                                     (vdot vo (vsub vo b (A x)) (vsub vo b (A x))))) /\
     Pos (osub o (vdot vo (vsub vo b (A x0)) (vsub vo b (A x0))) (vdot vo (vsub vo b (A x)) (vsub vo b (A x)))).
 
 Theorem C13_full_proved : C13_full.
-Proof. intros T V o vo L A As Hadj solve pad_buf selfref zero_nan tol mfac m b x0 Hnz Hstart Hunc Hpad Hsolve n Hmn Hcond Pos HP. destruct L.
+Proof. intros T V o vo L A As Hadj solve pad_buf selfref zero_nan abs_clip tol mfac m b x0 Hnz Hstart Hunc Hpad Hsolve n Hmn Hcond Pos HP. destruct L.
   eapply (gmres_fwd_minimal o vo); eauto. Qed.
